@@ -491,7 +491,7 @@ func TestC07(t *testing.T) {
 			"a<base>.q.go, <base>, <base>.notes.txt), stale outputs of generators that are not run, previous outputs of generators that are, README and an " +
 			"old gengo.sum; histories of 1-3 runs, each with 1-3 generators behaving as render / nothing / ErrSkip / ErrIgnore / ErrIgnore+output (also wrapped), " +
 			"a subset of entrypoints, All and Force on/off; oracle: byte snapshot of the whole tree before/after each run; non-trivial = a stale or look-alike " +
-			"file is present AND some generator renders nothing; distinct by JSON encoding",
+			"file is present AND some generator renders nothing; outputfault sub: a child run whose output cannot be put in place (RLIMIT_FSIZE of 1-4096 bytes, or a directory under the output name) may fail but leaves nothing except <base>.* files and gengo.sum; distinct by JSON encoding",
 		Assumptions: []string{
 			"with All and without Force a selected package for which no generator was invoked is taken to be skipped by the cache (the cache decision itself is C08)",
 			"only stale <base>.*.go files are required to be removed; other <base>.* files may be kept or removed",
